@@ -42,7 +42,7 @@
 		let _ = CidrSubnet::from_v6_prefix(a, p);
 	}
 
-	/// @ob cidr.from_addr_prefix @props C02 @kind forall @tier quick @fns rcgen::CidrSubnet::from_addr_prefix
+	/// @ob cidr.from_addr_prefix @props C02 @kind forall @tier quick @replay cidr4 @fns rcgen::CidrSubnet::from_addr_prefix
 	#[kani::proof]
 	#[kani::unwind(34)]
 	fn cidr_from_addr_prefix_v4() {
